@@ -1,3 +1,8 @@
 -- Root of the `TddaVerif` library: models, property theorems, driver handlers.
 import TddaVerif.Model.Coverage
 import TddaVerif.Drv.C18
+import TddaVerif.Py.Str
+import TddaVerif.Model.Csvw
+import TddaVerif.Generated.Csvw
+import TddaVerif.Drv.C16
+import TddaVerif.Props.C16
